@@ -106,7 +106,10 @@ impl<const K: usize> Polynomial<K> {
             }
         }
 
-        let p = matrix.try_inverse().unwrap() * rhs;
+        // Solve the normal equations by LU decomposition with pivoting rather than forming the
+        // explicit inverse, which loses many digits for small, ill-conditioned matrices (for
+        // example a cubic fitted on a domain that is offset from zero)
+        let p = matrix.lu().solve(&rhs).unwrap();
         let mut c = [0.0; K];
         for i in 0..K {
             c[i] = p[(i, 0)];
